@@ -449,7 +449,7 @@ pub fn explore_cmd(args: &[String]) {
                 break;
             }
             let c = Case {
-                id: case.id * 100000 + done as u64 + 1,
+                id: case.id * 10000 + done as u64 + 1,
                 profile: format!("{}+sched", case.profile),
                 cfg: Cfg {
                     mode: "prefix".into(),
